@@ -4,6 +4,7 @@
 From Coq Require Import List NArith Bool.
 Import ListNotations.
 Require Import V.C14.Model V.C14.Proofs V.C14.SitesFacts V.gen.RaiseSites.
+Require V.C13.Model V.C14.MissingCtx.
 Open Scope N_scope.
 
 (* Every message construction feeding an exception in the builder modules (generated table
@@ -63,6 +64,34 @@ Theorem resolve_framer_only_framers : forall reg name contexts s,
   lookup_t reg name = Some (TFramer s) /\ (contexts = [] \/ memN s contexts = true).
 Proof. exact resolve_framer_only_framers_l. Qed.
 Print Assumptions resolve_framer_only_framers.
+
+(* Act.resolvePath (the model of coq/C13/Model.v, tied to the real method by the C13 and C14
+   correspondences): a resolution that SUCCEEDS substitutes the main framer / main frame name only
+   when the framer has a main frame, and the actor name only when the actor is resolved -- so every
+   "missing context" case ends in ResolveError, never in a value built from a missing object. *)
+Theorem resolve_missing_context_is_resolve_error :
+  forall (T : Type) cls kw (c : V.C13.Model.ctx T) p l,
+  V.C13.Model.resolve cls kw c p = V.C13.Model.Ok l -> Forall (V.C14.MissingCtx.needs_ok T c) l.
+Proof. exact V.C14.MissingCtx.resolve_needs. Qed.
+Print Assumptions resolve_missing_context_is_resolve_error.
+
+(* the two main-context cases as equations: framer.main... and framer.<x>.frame.main... without a
+   main frame are ResolveError *)
+Theorem resolve_main_without_main_frame :
+  forall (T : Type) cls (c : V.C13.Model.ctx T),
+  V.C13.Model.has_main c = false ->
+  (forall p0 p1 rest, V.C13.Model.is T cls V.C13.Model.KFramer p0 = true ->
+     V.C13.Model.is T cls V.C13.Model.KMe p1 = false -> V.C13.Model.is T cls V.C13.Model.KMain p1 = true ->
+     V.C13.Model.subst cls c (p0 :: p1 :: rest) = V.C13.Model.ErrResolve) /\
+  (forall p0 p1 p2 p3 rest, V.C13.Model.is T cls V.C13.Model.KFramer p0 = true ->
+     V.C13.Model.is T cls V.C13.Model.KMain p1 = false -> V.C13.Model.is T cls V.C13.Model.KFrame p2 = true ->
+     V.C13.Model.is T cls V.C13.Model.KMe p3 = false -> V.C13.Model.is T cls V.C13.Model.KMain p3 = true ->
+     V.C13.Model.subst cls c (p0 :: p1 :: p2 :: p3 :: rest) = V.C13.Model.ErrResolve).
+Proof.
+  exact (fun T cls c Hm => conj (fun p0 p1 rest => V.C14.MissingCtx.main_framer_missing T cls c p0 p1 rest Hm)
+                                (fun p0 p1 p2 p3 rest => V.C14.MissingCtx.main_frame_missing T cls c p0 p1 p2 p3 rest Hm)).
+Qed.
+Print Assumptions resolve_main_without_main_frame.
 
 (* non-vacuity: the format checkers do reject the defects they are about *)
 Example c14_fmt_rejects :
